@@ -2126,6 +2126,10 @@ impl<'a> Ctx<'a> {
         let name = self.canon(&mc.method.to_string());
         let line = line_of(mc.method.span());
         let args: Vec<&Expr> = mc.args.iter().collect();
+        // builder-style setters the table declares as not looked at
+        if self.spec.chain_methods.iter().any(|m| *m == name) {
+            return self.expr(&mc.receiver, k);
+        }
         // self.iter().map(F).fold(INIT, G)  ->  (INIT, fun <extras of F> => F .., G)
         if let (Some(grp), "fold", 2) = (self.spec.iter_fold, name.as_str(), args.len()) {
             if let Expr::MethodCall(mapc) = &*mc.receiver {
